@@ -969,6 +969,14 @@ func (rn *runner) runSeq(sq *seqSpec) seqResult {
 			case w.t != nil:
 				cols = w.t.Cols
 			}
+			if w.t != nil && w.t.HasTime {
+				// producer contract of C04_partial: typed batches have columns (and validity) of one length
+				for _, cdef := range cols {
+					if cdef.Len != len(w.t.Times) || (cdef.VLen != 0 && cdef.VLen != cdef.Len) {
+						c.Fail("ragged-typed-batch:"+ep, fmt.Sprintf("%s handed the buffer a typed batch whose column %q has %d values (validity %d) against %d timestamps", r.Ep, cdef.Name, cdef.Len, cdef.VLen, len(w.t.Times)), rn.prefixReplay(sq, i))
+					}
+				}
+			}
 			for _, cdef := range cols {
 				if len(cdef.Name) > 0 && cdef.Name[0] == '_' {
 					k := o.db + "/" + w.meas() + "|" + cdef.Name
